@@ -4,10 +4,10 @@ package vpty
 
 import (
 	"bytes"
-	"time"
 	"fmt"
 	"os"
 	"sync"
+	"time"
 
 	"golang.org/x/sys/unix"
 )
@@ -95,18 +95,18 @@ func (p *Pty) Close() {
 	<-p.done
 }
 
-const marker = "\x1b[999m"
+const Marker = "\x1b[999m"
 
 // Sync writes a private marker to the slave and waits until the drain
 // goroutine has seen it, then returns all bytes before the marker.
 func (p *Pty) Sync() ([]byte, error) {
-	if _, err := p.Slave.Write([]byte(marker)); err != nil {
+	if _, err := p.Slave.Write([]byte(Marker)); err != nil {
 		return nil, err
 	}
 	for i := 0; i < 20000; i++ {
 		b := p.Bytes()
-		if j := bytes.LastIndex(b, []byte(marker)); j >= 0 {
-			return bytes.ReplaceAll(b[:j], []byte(marker), nil), nil
+		if j := bytes.LastIndex(b, []byte(Marker)); j >= 0 {
+			return bytes.ReplaceAll(b[:j], []byte(Marker), nil), nil
 		}
 		time.Sleep(100 * time.Microsecond)
 	}
